@@ -214,9 +214,15 @@ def k_dict_unpack(x: Any, in_slice: bool) -> Optional[Any]:
     return None
 
 
+def k_re_unpack(x: Any, in_slice: bool) -> Optional[Any]:
+    if W.is_re_compile_call(x) and any(k is None for k, _ in x[3]):
+        return [11, x[1], x[2], [[k, v] for k, v in x[3] if k is not None]]
+    return None
+
+
 KNOWN_CLASSES = [('C15-one-tuple', k_one_tuple), ('C15-slice-tuple-bound', k_slice_tuple),
                  ('C15-float-inf', k_inf), ('C15-fstring-brace', k_fstring),
-                 ('C15-astor-dict-unpack', k_dict_unpack)]
+                 ('C15-astor-dict-unpack', k_dict_unpack), ('C15-re-compile-unpack-dropped', k_re_unpack)]
 
 
 def repair(e: Any) -> Tuple[Any, List[str]]:
@@ -313,29 +319,35 @@ class Check(PropertyCheck):
         'colouriser (calls to re.compile) is outside the model',
     ]
     manifest = {
-        'text': ('Theorems over Model/ExprPrint.v + Model/Wrap.v + Model/StrEsc.v against Spec/PyGrammar.v + Spec/PyLex.v, for '
-                 'trees of any depth: the tokens printed for an expression, read by a precedence-climbing reader written from '
-                 'the language reference (run with its own fuel, proved sufficient), give back the same tree up to the '
-                 'documented spellings (C15_read_print; guard: no one-element tuple display, the recorded defect '
-                 'C15_one_tuple_refuted); the precedence facts the proof uses and the operator spellings are re-proved on the '
-                 'tables regenerated from /repo on every run (C15_prec_wf, C15_operator_spelling); _output conserves the '
-                 'text when it wraps, for every state and setting (C15_wrap_conserves); a cut result always ends with the '
-                 'ellipsis marker and says is_complete False, a complete one never (C15_truncation_marked); the inline '
-                 'display of an expression without embedded newlines is never cut (C15_inline_complete); _str_escape read '
-                 'and _bytes_escape read back as Python literals are the value, for every string (NUL, lone surrogates) and every '
-                 'byte string (C15_str_escape_roundtrip, C15_bytes_escape_roundtrip; the two repaired defects keep '
-                 '_old_refuted witnesses). Model and code are tied node for node by an '
-                 'exhaustive correspondence check (every form, every depth-two tree, every depth-three operator chain, '
-                 'every literal kind, all line-length x max-lines x linebreakok x parent-context settings, random deeper '
-                 'trees); the token view is checked against CPython tokenize, the spec reader against ast.parse, and the '
-                 'oracle re-reads every real output with ast.parse.'),
+        'text': ('Theorems over Model/ExprPrint.v + Model/Wrap.v + Model/StrEsc.v against Spec/PyTokenizer.v + Spec/PyGrammar.v + '
+                 'Spec/PyLex.v, for trees of any depth. Text level: the text pydoctor displays for an expression -- inline, or '
+                 'under ANY linelen/maxlines/linebreakok setting whenever is_complete is true, with the LINEWRAP markers and the '
+                 'newlines after them removed -- tokenized by a lexer written from the language reference and read by a '
+                 'precedence-climbing reader written from the grammar, is the source tree up to the documented spellings '
+                 '(C15_display_parses, C15_wrapped_display_parses, via C15_complete_layout: a complete run emits one of the '
+                 'layouts of the tree, C15_display_tokens: every layout lexes to the printed tokens, i.e. the separators the '
+                 'colouriser writes never merge or split tokens, and C15_read_print on tokens, fuel proved sufficient). Guards: '
+                 'no one-element tuple display (recorded defect, C15_one_tuple_refuted) and, for the text-level statements, no '
+                 'text delegated to astor inside the tree. Tables regenerated from /repo on every run carry the precedence '
+                 'facts and operator spellings the proofs use (C15_prec_wf, C15_operator_spelling). _output conserves text '
+                 'when it wraps (C15_wrap_conserves); a cut result always ends with the ellipsis marker and is_complete False '
+                 '(C15_truncation_marked); the inline display is never cut (C15_inline_complete); _str_escape/_bytes_escape '
+                 'read back as literals are the value for every string and byte string (C15_str_escape_roundtrip, '
+                 'C15_bytes_escape_roundtrip, _old_refuted witnesses for the two repaired defects); the re.compile colouriser '
+                 'is modelled at the envelope level (C15_re_fallback, C15_re_envelope_text, recorded defect '
+                 'C15_re_unpack_dropped_refuted). Model and code are tied node for node by an exhaustive correspondence check '
+                 '(every form, every depth-two tree, every depth-three operator chain, every literal kind, re.compile calls, '
+                 'all line-length x max-lines x linebreakok x parent-context settings, random deeper trees); the spec '
+                 'tokenizer and reader are run on every real output and validated against CPython tokenize / ast.parse, and '
+                 'the oracle re-reads every real output with ast.parse.'),
         'note': ('Trusted: Coq kernel, extraction + OCaml driver, gen_c15.py, the Python harness, CPython ast/tokenize as the '
                  'reference reader. Oracles (their text is an input of the model, checked by the ast.parse oracle only): str() of '
-                 'numbers and astor.to_source for delegated forms (comparison, conditional, lambda, slices, comprehensions, '
-                 'f-strings, attributes of non-names). Outside the model: the regex colouriser (re.compile calls).'),
-        'technique': 'Coq proof (induction on expression trees in continuation-passing form over a fuelled Pratt reader, fuel bound '
-                     'by consumed tokens) + tables regenerated from source + exhaustive model/implementation correspondence + '
-                     'ast.parse oracle',
+                 'numbers, astor.to_source for delegated forms (comparison, conditional, lambda, slices, comprehensions, '
+                 'f-strings, attributes of non-names), and the regex colouriser proper (_colorize_re_pattern) inside re.compile '
+                 'calls; re.compile calls nested inside other expressions are outside the model.'),
+        'technique': 'Coq proof (induction on expression trees in continuation-passing form over a fuelled Pratt reader and a '
+                     'fuelled lexer, layouts as a relation on the tree of output calls) + tables regenerated from source + '
+                     'exhaustive model/implementation correspondence + ast.parse oracle',
     }
     assumptions = ['delegated forms (astor) are opaque atoms in the theorems; their text is checked by the oracle only',
                    'calls to re.compile are outside the model',
@@ -349,6 +361,7 @@ class Check(PropertyCheck):
         groups['depth1'] = G.d1_forms('thorough')
         groups['depth2'] = G.depth2(t)
         groups['chains3'] = G.chains3(t)
+        groups['recompile'] = G.re_compile_calls(t)
         groups['literals'] = G.literal_leaves() + (G.single_char_strings() if t == 'thorough' else G.single_char_strings()[::3])
         nrand = 1500 if t == 'quick' else 50000
         rnd = []
@@ -398,7 +411,10 @@ class Check(PropertyCheck):
                 seen.add(key)
                 n += 1
                 out.append([e, 0, 0, 0, 0])                               # flat: the text itself
-                if gname in ('corpus', 'depth1'):
+                if gname == 'recompile':
+                    for cfg in ALL_CFGS:
+                        out.append([e, cfg[0], cfg[1], cfg[2], 0])
+                elif gname in ('corpus', 'depth1'):
                     for cfg in ALL_CFGS:                                   # every setting
                         out.append([e, cfg[0], cfg[1], cfg[2], 0])
                     for ctx in CTXS[1:]:
@@ -431,8 +447,10 @@ class Check(PropertyCheck):
         if obs['complete']:
             if any(k == 7 for k, _ in nodes):
                 return 'marker: is_complete is True but the output contains the truncation marker', None
+            if W.is_re_compile_call(e):
+                return None, 'r' + json.dumps([e, unwrapped_text(nodes)])
             if obs['canon']:
-                return None, unwrapped_text(nodes)
+                return None, 'd' + unwrapped_text(nodes)
             return None, None
         # truncated: must be visibly marked
         if not nodes or nodes[-1][0] != 7 or nodes[-1][1] != '...':
@@ -444,6 +462,9 @@ class Check(PropertyCheck):
     def oracle_post(self, obs: Dict[str, Any], reread: Optional[str], parsed: Optional[str]) -> Optional[str]:
         if reread is None:
             return None
+        if reread[0] == 'r':
+            return parsed            # the worker's verdict for a displayed re.compile call (None = holds)
+        reread = reread[1:]
         if parsed is None:
             return 'meaning: the displayed text %r is not a Python expression' % (reread[:200],)
         if parsed != obs['dump']:
@@ -452,11 +473,11 @@ class Check(PropertyCheck):
 
     def run_oracle(self, cases: List[List[Any]], impl: List[Dict[str, Any]]) -> List[Optional[str]]:
         pre = [self.oracle_pre(c, o) for c, o in zip(cases, impl)]
-        texts = sorted(set('d' + t for _, t in pre if t is not None))
+        texts = sorted(set(t for _, t in pre if t is not None))
         parsed = dict(zip(texts, lib.run_impl_worker(WORKER, texts, jobs=16))) if texts else {}
         out: List[Optional[str]] = []
         for (fail, t), o in zip(pre, impl):
-            out.append(fail or self.oracle_post(o, t, parsed.get('d' + t) if t is not None else None))
+            out.append(fail or self.oracle_post(o, t, parsed.get(t) if t is not None else None))
         return out
 
     # ------------------------------------------------------------------------------------------ correspondence
@@ -479,6 +500,7 @@ class Check(PropertyCheck):
         self.stats['distinct_nontrivial'] = acc['nontrivial']
         self.stats['token_views_checked'] = acc['ntok']
         self.stats['read_print_instances'] = acc['nread']
+        self.stats['display_text_instances'] = acc.get('ntext', 0)
         self.stats['t_batches'] = round(time.time() - t0, 1)
 
         # oracle: failures explained by a recorded defect class are verified in one batch (the failure must disappear when
@@ -525,13 +547,20 @@ class Check(PropertyCheck):
             if 'mexpr' not in o:
                 continue
             e, ll, ml, lb, ctx = c
+            if W.is_re_compile_call(e):
+                ro = o.get('re', {})
+                if 'error' in ro:
+                    raise RuntimeError('re oracle failed on %r: %s' % (c, ro['error']))
+                m0_in.append(enc([4, model_params((ll, ml, lb)), o['mexpr'], [ro['pieces']] if 'pieces' in ro else []]))
+                m0_idx.append(i)
+                self.count('re_compile_' + ('pieces' if 'pieces' in ro else 'raised' if 'raised' in ro else 'not_reached'))
+                continue
             m0_in.append(enc([0, model_params((ll, ml, lb)), ctx, o['mexpr']]))
             m0_idx.append(i)
-            if (ll, ml, lb) == FLAT:
-                key = json.dumps([ctx, o['mexpr']])
-                if key not in m1_keys:
-                    m1_keys[key] = len(m1_in)
-                    m1_in.append(enc([1, ctx, o['mexpr']]))
+            key = json.dumps([ctx, o['mexpr']])
+            if key not in m1_keys:
+                m1_keys[key] = len(m1_in)
+                m1_in.append(enc([1, ctx, o['mexpr']]))
         m0 = self.model('exprprint', m0_in)
         m1 = self.model('exprprint', m1_in)
         acc['model_runs'] += len(m0_in) + len(m1_in)
@@ -580,13 +609,13 @@ class Check(PropertyCheck):
         # token view of the model against CPython's tokenizer on the real flat text; theorem instance read(pp e) = norm e
         for i, (c, o) in enumerate(zip(cases, impl)):
             e, ll, ml, lb, ctx = c
-            if (ll, ml, lb) != FLAT or 'mexpr' not in o or 'error' in o:
+            if (ll, ml, lb) != FLAT or 'mexpr' not in o or 'error' in o or W.is_re_compile_call(e):
                 continue
             r = m1[m1_keys[json.dumps([ctx, o['mexpr']])]]
             m = dec(r)
             if m in ([-998], [-999]):
                 continue
-            toks, read_ok, tree = m
+            toks, read_ok, tree, _lexable = m
             if o.get('toks') is not None:
                 want: Optional[List[str]] = []
                 for t in toks:
@@ -607,6 +636,33 @@ class Check(PropertyCheck):
                 if not read_ok and len(out) < 40:
                     out.append(Violation('correspondence', 'Spec.PyGrammar.read (pp e) <> norm e on a tree inside the guard of '
                                          'C15_read_print', case=c, expected='read back', observed=tree))
+
+        # the theorems C15_display_tokens / C15_wrapped_display_parses on the REAL output: the spec tokenizer, run on what
+        # pydoctor displayed (wrap markers removed) in any complete run of a lexable, canonical tree without a recorded
+        # defect, gives exactly the tokens pp printed
+        t3_in: List[str] = []
+        t3_idx: List[int] = []
+        for i, (c, o) in enumerate(zip(cases, impl)):
+            if 'mexpr' not in o or 'error' in o or not o['complete'] or not o['canon'] or W.is_re_compile_call(c[0]):
+                continue
+            m = dec(m1[m1_keys[json.dumps([c[4], o['mexpr']])]])
+            if m in ([-998], [-999]) or not m[3]:
+                continue
+            if 'C15-one-tuple' in repair(c[0])[1]:
+                continue
+            t3_in.append(enc([3, unwrapped_text(o['nodes'])]))
+            t3_idx.append(i)
+        t3 = self.model('exprprint', t3_in)
+        acc['model_runs'] += len(t3_in)
+        for r, i in zip(t3, t3_idx):
+            c, o = cases[i], impl[i]
+            want = dec(m1[m1_keys[json.dumps([c[4], o['mexpr']])]])[0]
+            got = dec(r)
+            acc['ntext'] = acc.get('ntext', 0) + 1
+            if got != [want] and len(out) < 60:
+                out.append(Violation('correspondence', 'Spec.PyTokenizer.tokenize on the displayed text does not give the tokens of '
+                                     'Model.ExprPrint.pp (instance of C15_display_tokens)', case=c,
+                                     expected=want, observed=got))
 
         for c, o, v in zip(cases, impl, verdicts):
             if v:
@@ -675,6 +731,24 @@ class Check(PropertyCheck):
                 rejected += 1
         self.stats['spec_validation_strings'] = agree
         self.stats['spec_validation_rejected_by_both'] = rejected
+        # the tokenizer: whenever Spec.PyTokenizer accepts a text, CPython's tokenize gives the same token strings
+        ktexts = [t[1:] for t in texts] + [t[1:].replace(' ', '') for t in texts]
+        kpy = lib.run_impl_worker(WORKER, ['k' + t for t in ktexts], jobs=16) if ktexts else []
+        kmo = self.model('exprprint', [enc([3, t]) for t in ktexts])
+        accepted = 0
+        for t, p, m in zip(ktexts, kpy, kmo):
+            got = dec(m)
+            if got == []:
+                continue
+            accepted += 1
+            want: List[str] = []
+            for tok in got[0]:
+                want.extend(spell(tok, cache) or ['?'])
+            if p != want:
+                raise RuntimeError('spec validation: Spec.PyTokenizer.tokenize and CPython tokenize disagree on %r: %r vs %r'
+                                   % (t, want, p))
+        self.stats['tokenizer_validation_texts'] = len(ktexts)
+        self.stats['tokenizer_validation_accepted'] = accepted
 
     # ------------------------------------------------------------------------------------------ search / replay / known
     def search(self, broken: List[Violation]) -> List[Violation]:
